@@ -94,3 +94,68 @@ Example C09_nonvacuous :
   let j := JObj [("n", JNum 8); ("xs", JArr [JNum 4; JNum 2; JObj [("k", JNull)]])] in
   is_canon (export_goja j) = false /\ is_canon (js_result j) = true /\ canon (js_result j) = j.
 Proof. vm_compute. auto. Qed.
+
+(** * The text level with string escapes (Model/StateTextEsc.v:
+    [encode_state_esc] / [decode_state_esc] are [encode_state] /
+    [decode_state] over the text model of Model/JsonTextEsc.v, which writes
+    and reads quotes, backslashes, control characters, [<], [>], [&] the way
+    encoding/json does).  [ascii_state st]: the node name, the binding names
+    and every bound string are made of bytes below 128, whatever those bytes
+    are.  In the model the round trip holds of every byte string (the
+    [_bytes] statements); [ascii_state] is what ties the model to Go. *)
+From Sheens Require Import Model.StateTextEsc Proofs.StateTextEscProofs.
+
+Theorem C09_state_text_roundtrip_escapes :
+  forall st, ascii_state st = true -> decode_state_esc (encode_state_esc st) = Some st.
+Proof. exact decode_encode_state_esc. Qed.
+Print Assumptions C09_state_text_roundtrip_escapes.
+
+Theorem C09_state_text_injective_escapes :
+  forall a b,
+    ascii_state a = true -> ascii_state b = true -> encode_state_esc a = encode_state_esc b -> a = b.
+Proof. exact encode_state_esc_inj. Qed.
+Print Assumptions C09_state_text_injective_escapes.
+
+Theorem C09_reload_unobservable_escapes :
+  forall (A : Type) (process : state -> A) st,
+  ascii_state st = true ->
+  option_map process (decode_state_esc (encode_state_esc st)) = Some (process st).
+Proof. exact reload_unobservable_esc. Qed.
+Print Assumptions C09_reload_unobservable_escapes.
+
+Theorem C09_state_text_roundtrip_escapes_bytes :
+  (forall st, decode_state_esc (encode_state_esc st) = Some st)
+  /\ (forall a b, encode_state_esc a = encode_state_esc b -> a = b).
+Proof. exact (conj decode_encode_state_esc_bytes encode_state_esc_inj_bytes). Qed.
+Print Assumptions C09_state_text_roundtrip_escapes_bytes.
+
+(** conservativity: whatever stored text the decoder without escapes reads,
+    the decoder with escapes reads as the same state; where no string needs
+    an escape the two encoders write the same text; on every plain state the
+    two pipelines agree *)
+Theorem C09_state_text_escapes_conservative :
+  (forall s st, decode_state s = Some st -> decode_state_esc s = Some st)
+  /\ (forall st, noesc_state st = true -> encode_state_esc st = encode_state st)
+  /\ (forall st, plain_state st = true -> decode_state_esc (encode_state st) = Some st)
+  /\ (forall st, plain_state st = true ->
+        decode_state_esc (encode_state_esc st) = decode_state (encode_state st)).
+Proof.
+  exact (conj decode_state_esc_conservative
+        (conj encode_state_esc_noesc
+        (conj decode_esc_encode_plain state_text_esc_conservative))).
+Qed.
+Print Assumptions C09_state_text_escapes_conservative.
+
+(** non-vacuity: a node name, a binding name and a bound string with a
+    quote, a backslash and a newline (and [<], [&]); the text Go stores; the
+    encoding without escapes does not survive the round trip *)
+Example C09_text_escapes_nonvacuous :
+  let s := ("a""b\c" ++ String "010"%char "<&")%string in
+  let st := mk_state s (Some [(s, JArr [JStr s; JNum 10])]) in
+  ascii_state st = true /\ plain_state st = false /\
+  encode_state_esc st
+  = "{""node"":""a\""b\\c\n\u003c\u0026"",""bs"":{""a\""b\\c\n\u003c\u0026"":[""a\""b\\c\n\u003c\u0026"",2.5]}}"%string /\
+  decode_state_esc (encode_state_esc st) = Some st /\
+  decode_state (encode_state st) = None /\
+  decode_state_esc "{""bs"":null,""node"":""A\/""}" = Some (mk_state "A/" None).
+Proof. vm_compute. repeat split; reflexivity. Qed.
